@@ -166,6 +166,9 @@ def run_check(prop, tier, seed=None):
     if seed is None:
         seed = int(os.environ.get('VERIF_SEED', '0') or 0)
     P = props.get(prop)
+    if P.mode == 'threads':
+        from . import c20
+        return c20.run(prop, tier, seed)
     n = P.runs[tier]
     wall_cap = P.wall[tier]
     kf = known.load()
@@ -175,8 +178,14 @@ def run_check(prop, tier, seed=None):
     chunk = max(4, min(200, n // (NPROC * 6) or 1))
     tasks = []
     deadline = t0 + wall_cap
-    for s in range(0, n, chunk):
-        tasks.append((prop, seed, list(range(s, min(n, s + chunk))), cfg, baseline, set(known_clauses), deadline))
+    only = os.environ.get('DSIM_INDICES')
+    if only:          # development: run exactly these run indices
+        idxs = [int(x) for x in only.split(',')]
+        n = len(idxs)
+        tasks.append((prop, seed, idxs, cfg, baseline, set(known_clauses), deadline))
+    else:
+        for s in range(0, n, chunk):
+            tasks.append((prop, seed, list(range(s, min(n, s + chunk))), cfg, baseline, set(known_clauses), deadline))
     agg = {'runs': 0, 'ops': 0, 'stats': {}, 'states': set(), 'nontrivial': set(), 'known': {}, 'new': [],
            'samples': [], 'errors': [], 'interleavings': set(), 'sim_steps': 0, 'skipped': 0, 'digests': {}}
     ctx = multiprocessing.get_context('fork')
@@ -308,8 +317,9 @@ def replay_file(path):
         print('not reproduced: clause %s does not occur' % rep['clause'])
         return 0
     if rep.get('mode') == 'threads':
-        from . import threads
-        return threads.replay(rep)
+        from . import c20
+        rep['_path'] = path
+        return c20.replay(rep)
     if P.replay:
         return P.replay(rep)
     m, viol = judges.evaluate(prop, rep['ops'], REPO, rep.get('opts') or P.opts)
